@@ -65,6 +65,8 @@ pub struct RewriteRec {
 
 #[derive(Default)]
 pub struct Ctx {
+    /// per handle type: the woven entry points that take the ghost log (name, number of non-self arguments)
+    pub owner_fx: BTreeMap<String, Vec<(String, usize)>>,
     pub obligations: Vec<Obligation>,
     pub rewrites: Vec<RewriteRec>,
     pub ghost_insertions: usize,
@@ -173,6 +175,14 @@ pub fn audit(woven: &str, src: &str) -> Result<(), String> {
     }
 }
 
+fn type_base_ident(t: &syn::Type) -> String {
+    match t {
+        syn::Type::Path(p) => p.path.segments.last().map(|s| s.ident.to_string()).unwrap_or_default(),
+        syn::Type::Reference(r) => type_base_ident(&r.elem),
+        _ => String::new(),
+    }
+}
+
 fn squeeze(s: &str) -> String {
     s.chars().filter(|c| !c.is_whitespace()).collect()
 }
@@ -275,6 +285,7 @@ pub struct FnWeaver<'a> {
     localise: bool,
     /// (name, arity) of the woven fx-taking methods of the impl type this function belongs to
     pub self_fx: Vec<(String, usize)>,
+    pub param_types: Vec<(String, String)>,
 }
 
 impl<'a> FnWeaver<'a> {
@@ -345,6 +356,12 @@ impl<'a> FnWeaver<'a> {
             if let syn::FnArg::Typed(pt) = a {
                 if let syn::Pat::Ident(pi) = &*pt.pat {
                     self.params.push(pi.ident.to_string());
+                    // the handle type of a parameter (`r: &'a AsyncReceiver<T>` -> AsyncReceiver), for entry-point calls on it
+                    let base = match &*pt.ty {
+                        syn::Type::Reference(r) => type_base_ident(&r.elem),
+                        t => type_base_ident(t),
+                    };
+                    self.param_types.push((pi.ident.to_string(), base));
                 } else {
                     self.params.push("_".into());
                 }
@@ -1246,7 +1263,22 @@ impl<'x, 'a, 'ast> Visit<'ast> for PassA<'x, 'a> {
     fn visit_expr_method_call(&mut self, m: &'ast syn::ExprMethodCall) {
         let name = m.method.to_string();
         let on_self = matches!(&*m.receiver, syn::Expr::Path(p) if p.path.is_ident("self"));
-        self.fx_arg2(&name, m.args.len(), lo(m.paren_token.span.close()), m.args.trailing_punct(), on_self);
+        if !self.fx_arg2(&name, m.args.len(), lo(m.paren_token.span.close()), m.args.trailing_punct(), on_self) && self.w.has_fx {
+            // an entry point called on a parameter whose declared type is a handle type (`receiver.clone()`)
+            if let syn::Expr::Path(p) = &*m.receiver {
+                if let Some(id) = p.path.get_ident() {
+                    let id = id.to_string();
+                    let owner = self.w.param_types.iter().find(|(n, _)| *n == id).map(|(_, t)| t.clone());
+                    if let Some(owner) = owner {
+                        let hit = self.w.ctx.owner_fx.get(&owner).map(|v| v.iter().any(|(n, a)| *n == name && *a == m.args.len())).unwrap_or(false);
+                        if hit {
+                            let t = if !m.args.is_empty() && !m.args.trailing_punct() { ", Tracked(fx)" } else { "Tracked(fx)" };
+                            self.w.ghost(lo(m.paren_token.span.close()), t.to_string(), 0);
+                        }
+                    }
+                }
+            }
+        }
         self.call_hints(&name, lo(m.span()), hi(m.span()));
         syn::visit::visit_expr_method_call(self, m);
     }
@@ -1564,6 +1596,7 @@ pub fn new_weaver<'a>(src: &'a str, file: &'a str, func: String, c: &'a FnContra
         saw_plain_lend: false,
         localise: false,
         self_fx: vec![],
+        param_types: vec![],
     }
 }
 
